@@ -18,7 +18,7 @@ from vf import xc20_rows
 from vf.xc20_rows import ROWS
 
 ID = "C20"
-BUDGET = {"quick": 3200, "thorough": 120000}
+BUDGET = {"quick": 20000, "thorough": 500000}
 MIN_KEYS = 150
 REQUIRED = [f"row:{name}:{side}" for name in ROWS for side in ("accept", "reject")] + [
     "outcome:accept:returned", "outcome:reject:rejected-in-family"]
@@ -29,7 +29,9 @@ RULE = (
     "side), length_ratio in {<0, -1e-6, 0, 1e-6, inside, 1, 1+1e-6, >1} directly and through Mesh.assemble+grade, inner "
     "vs outer radius {<, = (exact dyadic geometry), >} for Annulus / ExtrudedRing / contract / expand, radius vector "
     "leaning by 0, +-1e-9 (accept) and +-{1e-3..1.2} rad (reject) towards +axis and -axis at random azimuth for Cylinder / "
-    "SemiCylinder / Frustum / Annulus / ExtrudedRing, chain length +-, sketches with different face counts, second clamp "
+    "SemiCylinder / Frustum / Annulus / ExtrudedRing, chain length +- from Cylinder / Frustum / Elbow / ring sources on either "
+    "face, start / end / middle sketch with more or fewer faces, Cylinder.fill on 4/6/7/8/9/12-segment rings, Elbow.chain on a "
+    "ring, second clamp "
     "on a vertex, clamp / link positions at, within 1e-8 of, and >= 1e-3 off a vertex, grade / backport before assemble "
     "and after clear, Shell.chop on disconnected faces; all inside randomly rotated / translated valid surroundings "
     "(Loft / Extrude / Box / Revolve operations, 1-3 block meshes). non-trivial: every judged case; distinct by "
@@ -134,20 +136,22 @@ def run_case(ctx, case):
     if err is not None:
         ctx.count(f"exception:{type(err).__name__}")
     ctx.key([row.name, cls, side, kind])
-    ctx.sample({"row": row.name, "class": cls, "side": side, "outcome": kind if err is None else f"{kind} {type(err).__name__}",
-                "params": brief(p)[:600]})
+    if ctx.evaluations % 53 == (7 * ctx.shard + 3) % 53:  # literal samples spread over rows and shards
+        ctx.sample({"row": row.name, "class": cls, "side": side,
+                    "outcome": kind if err is None else f"{kind} {type(err).__name__}", "params": brief(p)[:600]})
+    mcls = cls.rsplit(":", 1)[0] if row.clause == "not-perpendicular" else cls  # direction, not magnitude, is structural
     what = f"{row.name} [{cls}] {brief(p)}"
     if side == "reject":
         if err is None:
-            ctx.violation(f"accepted:{row.name}:{cls}",
+            ctx.violation(f"accepted:{row.name}:{mcls}",
                           f"arguments on the reject side of a documented boundary were accepted silently: {what}")
         elif kind.startswith("crashed"):
-            ctx.violation(f"crashed:{row.name}:{cls}:{type(err).__name__}",
+            ctx.violation(f"crashed:{row.name}:{mcls}:{type(err).__name__}",
                           f"rejected only by accident ({type(err).__name__}: {err}), not by a creation / value / key / "
                           f"runtime error: {what}")
     else:
         if err is not None:
-            ctx.violation(f"valid-rejected:{row.name}:{cls}:{type(err).__name__}",
+            ctx.violation(f"valid-rejected:{row.name}:{mcls}:{type(err).__name__}",
                           f"documented-valid arguments raised {type(err).__name__}: {err}: {what}")
 
 
